@@ -13,7 +13,8 @@ MUST_RAISE = [
     'origin-ref-2^30', 'origin-ref-negative', 'copy-number-256', 'header-id-66', 'header-seq-0', 'header-seq-1e10',
     'sul-id-61', 'sul-seq-10000', 'dtime-year-1899', 'dtime-year-2156', 'status-2', 'frame-without-channels',
     'zero-rows', 'record-length-odd', 'record-length-18', 'record-length-16386', 'int-attr-fraction', 'encrypted-2',
-    'window-empty', 'window-beyond', 'slong-2^31', 'list-to-single-valued-attribute', 'missing-dataset-after-earlier-write', 'partial-data-after-earlier-write',
+    'window-empty', 'window-beyond', 'slong-2^31', 'list-to-single-valued-attribute', 'sul-seq-not-positive',
+    'sul-seq-not-an-integer', 'header-seq-not-an-integer', 'header-seq-reassigned-invalid', 'origin-ref-of-no-origin', 'missing-dataset-after-earlier-write', 'partial-data-after-earlier-write',
 ]
 FRINGE = ['empty-value-list', 'empty-text', 'empty-payload', 'single-row', 'width-1', 'origin-ref-0', 'name-255', 'ident-255',
           'text-20000', 'units-255', 'many-values-300', 'set-name-255', 'header-id-65', 'sul-id-60', 'empty-ident',
@@ -167,6 +168,14 @@ def inject(sp, c, r):
         sp['ops'] = [o for o in ops if o['op'] != 'frame' and not _refs_any(o, frames)]
         _reindex_after_removal(sp, ops)
         return 'spec'
+    if c == 'origin-ref-of-no-origin':
+        # an explicit origin reference that no ORIGIN object of the logical file carries (at creation, or assigned later)
+        i = some_obj()
+        if r.random() < 0.5:
+            ops[i]['origin_reference'] = r.choice([77, 16000])
+        else:
+            ops.append({'op': 'setattr', 'target': i, 'field': 'origin_reference', 'value': r.choice([77, 16000])})
+        return f'{ops[i]["op"]} origin_reference'
     if c in ('origin-ref-2^30', 'origin-ref-negative', 'origin-ref-0'):
         i = some_obj()
         ops[i]['origin_reference'] = {'origin-ref-2^30': 2 ** 30, 'origin-ref-negative': -1, 'origin-ref-0': 0}[c]
@@ -185,6 +194,20 @@ def inject(sp, c, r):
     if c in ('sul-id-61', 'sul-id-60'):
         sp['sul']['set_identifier'] = L(int(c[7:]))
         return 'sul id'
+    if c == 'sul-seq-not-positive':
+        sp['sul']['sequence_number'] = r.choice([0, -1, -999])
+        sp['sul']['as_object'] = r.random() < 0.5
+        return 'sul sequence number'
+    if c == 'sul-seq-not-an-integer':
+        sp['sul']['sequence_number'] = r.choice([True, None, 1.5, 'AB', ''])
+        sp['sul']['as_object'] = r.random() < 0.5
+        return 'sul sequence number'
+    if c == 'header-seq-not-an-integer':
+        sp['lfs'][0]['fh_sequence_number'] = r.choice([True, 2.0, '7'])
+        return 'header sequence number'
+    if c == 'header-seq-reassigned-invalid':
+        ops.append({'op': 'set_header', 'lf': 0, 'field': 'sequence_number', 'value': r.choice([-3, 0, True, 10 ** 10])})
+        return 'header sequence number (re-assigned)'
     if c == 'sul-seq-10000':
         sp['sul']['sequence_number'] = 10000
         return 'sul sequence number'
